@@ -570,6 +570,9 @@ func (e *Env) callContract(fc *FuncContract, key string, sig *types.Signature, r
 		nv := e.fresh("hv", elemSort(h.s))
 		e.assign(h.name, h.s, Store(Var(h.name, h.s), id, nv))
 	}
+	for _, r := range ms.roots {
+		e.assumeTyping(r)
+	}
 	if modMem {
 		e.havoc("Mem", SMem)
 		e.havoc("$nextRef", SInt)
